@@ -3,8 +3,8 @@ from . import _multi
 from .. import sampling
 from ._store import replay_store, run_store
 
-QUICK = [('compress', 100), ('compress_big', 12)]
-THOROUGH = [('compress', 1200), ('compress_big', 150)]
+QUICK = [('compress', 100), ('compress_big', 12), ('import', 40)]
+THOROUGH = [('compress', 1200), ('compress_big', 150), ('import', 300)]
 
 
 def run(tier: str):
